@@ -37,6 +37,8 @@ from .constants import (
 )
 from .scalars import ScalarData
 
+ITEM_VARIABLE_PREFIX = "_item"
+
 
 class ArgumentsGenerator:
     def __init__(
@@ -85,7 +87,11 @@ class ArgumentsGenerator:
                 required_args.append(arg)
 
             dict_.keys.append(generate_constant(org_name))
-            dict_.values.append(self._get_dict_value(name, used_custom_scalar))
+            dict_.values.append(
+                self._get_dict_value(
+                    name, used_custom_scalar, variable_definition.type
+                )
+            )
 
         arguments = generate_arguments(
             args=required_args + optional_args,
@@ -172,15 +178,74 @@ class ArgumentsGenerator:
         )
 
     def _get_dict_value(
-        self, name: str, used_custom_scalar: Optional[str]
-    ) -> Union[ast.Name, ast.Call]:
+        self,
+        name: str,
+        used_custom_scalar: Optional[str],
+        type_node: Optional[TypeNode] = None,
+    ) -> ast.expr:
         if used_custom_scalar:
             self._used_custom_scalars.append(used_custom_scalar)
             scalar_data = self.custom_scalars[used_custom_scalar]
             if scalar_data.serialize_name:
-                return generate_call(
-                    func=generate_name(scalar_data.serialize_name),
-                    args=[generate_name(name)],
+                if type_node is None:
+                    return generate_call(
+                        func=generate_name(scalar_data.serialize_name),
+                        args=[generate_name(name)],
+                    )
+                return self._generate_serialize_expr(
+                    type_node, generate_name(name), scalar_data.serialize_name
                 )
 
         return generate_name(name)
+
+    def _generate_serialize_expr(
+        self,
+        node: TypeNode,
+        value: ast.expr,
+        serialize_name: str,
+        nullable: bool = True,
+        depth: int = 0,
+    ) -> ast.expr:
+        """Call serialize once for every non-null occurrence of the scalar.
+
+        None (and, for the argument itself, UNSET) is passed through untouched
+        and list arguments are serialized item by item.
+        """
+        if isinstance(node, NonNullTypeNode):
+            return self._generate_serialize_expr(
+                node.type, value, serialize_name, False, depth
+            )
+
+        expr: ast.expr
+        if isinstance(node, ListTypeNode):
+            item = generate_name(f"{ITEM_VARIABLE_PREFIX}{depth}")
+            expr = ast.ListComp(
+                elt=self._generate_serialize_expr(
+                    node.type, item, serialize_name, True, depth + 1
+                ),
+                generators=[
+                    ast.comprehension(target=item, iter=value, ifs=[], is_async=0)
+                ],
+            )
+        else:
+            expr = generate_call(func=generate_name(serialize_name), args=[value])
+
+        if not nullable:
+            return expr
+
+        test: ast.expr = ast.Compare(
+            left=value, ops=[ast.Is()], comparators=[generate_constant(None)]
+        )
+        if depth == 0:
+            test = ast.BoolOp(
+                op=ast.Or(),
+                values=[
+                    test,
+                    ast.Compare(
+                        left=value,
+                        ops=[ast.Is()],
+                        comparators=[generate_name(UNSET_NAME)],
+                    ),
+                ],
+            )
+        return ast.IfExp(test=test, body=value, orelse=expr)
